@@ -371,7 +371,7 @@ def run_case(case, PROP):
         if PROP == 'C05':
             for _ in range(r.choice([0, 1, 2, 3])):     # 0: plain second write, nothing re-assigned
                 ph = c14.make_phase(r, r.choice(['assign-other-kind', 'assign-other-kind', 'assign-value', 'assign-units',
-                                                'change-channel-units', 'clear-channel-units']), ops_now, sp, {})
+                                                'change-channel-units', 'clear-channel-units', 'assign-derived-attr']), ops_now, sp, {})
                 later_ops.extend(ph['ops'])
                 ops_now.extend(ph['ops'])
             bump('reassign-after-write')
